@@ -58,7 +58,7 @@ func buildContexts() []evalCtx {
 	}{
 		{"object", map[string]types.XValue{
 			"a": types.NewXObject(map[string]types.XValue{"b": num("2"), "s": types.NewXText("x"), "1": types.NewXText("one"), "a": inner,
-				"q\"\\": types.NewXText("quoted"), "é\n": types.NewXText("accent")}),
+				"q\"\\": types.NewXText("quoted"), "é\n\"": types.NewXText("accent")}),
 			"b": types.NewXText("s"),
 			"f": fJoin,
 		}},
@@ -73,7 +73,7 @@ func buildContexts() []evalCtx {
 			"f": types.NewXText("notfunc"),
 		}},
 		{"text", map[string]types.XValue{
-			"a": types.NewXText("é\n"),
+			"a": types.NewXText("é\n\""),
 			"b": nil,
 		}},
 	}
